@@ -74,9 +74,24 @@ func genRequestParams(t *rapid.T) arrow.RecordBatch {
 		rows = rapid.IntRange(0, 3).Draw(t, "rows0")
 	}
 	b := lib.GenBatch(t, schema, rows)
-	if rapid.IntRange(0, 4).Draw(t, "pmeta?") == 0 {
+	switch rapid.IntRange(0, 5).Draw(t, "pmeta?") {
+	case 0:
 		m := lib.GenMeta(t, false)
 		b = lib.WithMeta(b, m.Keys(), m.Values())
+	case 1:
+		// a batch that already went through the framework once (what an
+		// intermediary re-framing a request it read holds): its own custom
+		// metadata names a method, versions, a request id, tokens. WriteRequest
+		// documents that none of it is carried over.
+		pool := [][2]string{{lib.KProtoVersion, "2.3.0"}, {lib.KProtoVersion, "9.9.9"}, {lib.KMethod, "stale_method"}, {lib.KRequestVersion, "0"},
+			{lib.KRequestID, "stale-request"}, {lib.KStreamState, "c3RhbGUtY3Vyc29y"}, {lib.KCallState, "c3RhbGUtY2FsbA=="}, {lib.KLogLevel, "DEBUG"}, {"user.key", "u"}}
+		n := rapid.IntRange(1, 4).Draw(t, "nstale")
+		var keys, vals []string
+		for i := 0; i < n; i++ {
+			kv := pool[rapid.IntRange(0, len(pool)-1).Draw(t, "stale")]
+			keys, vals = append(keys, kv[0]), append(vals, kv[1])
+		}
+		b = lib.WithMeta(b, keys, vals)
 	}
 	return b
 }
